@@ -12,12 +12,14 @@ static int runs, got, inner_runs;
 
 template<typename T> struct Val;
 template<> struct Val<int> { static int make(int v) { return v; } static int read(int &x) { return x; } };
+template<> struct Val<long> { static long make(int v) { return v; } static int read(long &x) { return int(x); } };
 template<> struct Val<std::unique_ptr<int>> {
     static std::unique_ptr<int> make(int v) { return std::make_unique<int>(v); }
     static int read(std::unique_ptr<int> &x) { return x ? *x : -12345; } };
 
 // K nondeterministic operations on one promise, up to two task copies, up to two promise copies.
-template<typename T> static void schedule(bool reenter)
+// U = type handed to finish(): U == T takes finish(T&&), U != T (convertible) takes the CONVERTING overload finish(U&&) (seed C13-3)
+template<typename T, typename U = T> static void schedule(bool reenter)
 {
     static char ctxbuf[16];
     QObject *ctx = reinterpret_cast<QObject *>(ctxbuf);
@@ -41,7 +43,7 @@ template<typename T> static void schedule(bool reenter)
             }
             attached = true;
         }
-        else if (op == 2 && (p || p2) && !finished) { (p2 ? *p2 : *p).finish(Val<T>::make(v)); finished = true; }
+        else if (op == 2 && (p || p2) && !finished) { (p2 ? *p2 : *p).finish(Val<U>::make(v)); finished = true; }
         else if (op == 3) { vp_destroy_ctx(); }                                             // context object destroyed
         else if (op == 4 && t1 && !(reenter && attached && !ready)) { t1.reset(); }         // drop a task copy (kept alive while a re-entrant continuation refers to it)
         else if (op == 5 && p) { if (finished || p2) p.reset(); }                           // drop a promise copy
@@ -59,6 +61,7 @@ template<typename T> static void schedule(bool reenter)
 extern "C" void h_sched_int() { schedule<int>(false); }
 extern "C" void h_sched_uptr() { schedule<std::unique_ptr<int>>(false); }
 extern "C" void h_sched_int_reenter() { schedule<int>(true); }
+extern "C" void h_sched_conv() { schedule<long, int>(false); }       // promise of long finished with an int: converting overload
 
 // void specialisation has a different continuation signature
 extern "C" void h_sched_void()
